@@ -315,7 +315,7 @@ pub struct SignStats {
     pub origin_mismatch: Vec<String>,
 }
 
-#[derive(Clone, Copy, Debug)]
+#[derive(Clone, Debug)]
 pub struct SignerPolicy {
     pub sign_ecdsa: bool,
     pub sign_key_spend: bool,
@@ -323,10 +323,12 @@ pub struct SignerPolicy {
     pub give_preimages: bool,
     /// use SIGHASH_ALL explicitly for schnorr (65-byte sigs) instead of DEFAULT
     pub schnorr_explicit_all: bool,
+    /// when Some: the only tap leaves this signer signs for
+    pub leaf_allow: Option<Vec<TapLeafHash>>,
 }
 
 impl Default for SignerPolicy {
-    fn default() -> Self { SignerPolicy { sign_ecdsa: true, sign_key_spend: true, sign_leaves: true, give_preimages: true, schnorr_explicit_all: false } }
+    fn default() -> Self { SignerPolicy { sign_ecdsa: true, sign_key_spend: true, sign_leaves: true, give_preimages: true, schnorr_explicit_all: false, leaf_allow: None } }
 }
 
 fn prevouts_of(psbt: &Psbt) -> Option<Vec<TxOut>> {
@@ -446,6 +448,11 @@ pub fn signer_sign(
                     }
                     if policy.sign_leaves {
                         for lh in leaves {
+                            if let Some(allow) = &policy.leaf_allow {
+                                if !allow.contains(&lh) {
+                                    continue;
+                                }
+                            }
                             let cache_tx = tx.clone();
                             let mut cache = SighashCache::new(&cache_tx);
                             let lib = psbt.sighash_msg(idx, &mut cache, Some(lh));
@@ -578,6 +585,18 @@ pub fn drop_invalid_sigs(env: &crate::sim::Env, tx: &Transaction, idx: usize, sa
 /// "God view" satisfier: real signatures by `keys` (subset of the descriptor's keys) over input `idx`
 /// of `tx`, every preimage in `hashes`. Used where a monitor must re-sign a variant of the transaction.
 pub fn god_sat<'a>(env: &'a crate::sim::Env, tx: &Transaction, idx: usize, keys: &[usize], hashes: &[usize], aux_seed: u64) -> WorldSat<'a> {
+    god_sat_slots(env, tx, idx, keys, hashes, aux_seed, &|_, _| true)
+}
+
+/// Which signature a key is asked for.
+#[derive(Clone, Copy, Debug, PartialEq, Eq)]
+pub enum Slot {
+    Ecdsa,
+    TapKey,
+    TapLeaf(TapLeafHash),
+}
+
+pub fn god_sat_slots<'a>(env: &'a crate::sim::Env, tx: &Transaction, idx: usize, keys: &[usize], hashes: &[usize], aux_seed: u64, allow: &dyn Fn(usize, Slot) -> bool) -> WorldSat<'a> {
     let mut sat = WorldSat::empty(&env.uni, &env.by_expr, tx, idx);
     let prevouts: Vec<TxOut> = env.inputs.iter().map(|i| i.utxo.clone()).collect();
     if tx.input.len() != prevouts.len() {
@@ -596,7 +615,7 @@ pub fn god_sat<'a>(env: &'a crate::sim::Env, tx: &Transaction, idx: usize, keys:
             for k in keys {
                 let key = &env.uni.keys[*k];
                 let kp = secp256k1::Keypair::from_secret_key(secp, &key.secret);
-                if ik == Some(*k) {
+                if ik == Some(*k) && allow(*k, Slot::TapKey) {
                     if let (Some((rt, _)), Ok(d)) = (&rt, ref_digest(tx, &prevouts, idx, &SpendCtx::TapKey, 0)) {
                         use bitcoin::key::TapTweak;
                         let root = rt.merkle_root.map(bitcoin::taproot::TapNodeHash::from_byte_array);
@@ -609,6 +628,9 @@ pub fn god_sat<'a>(env: &'a crate::sim::Env, tx: &Transaction, idx: usize, keys:
                     let occurs = leaf.miniscript().iter_pk().any(|pk| env.by_expr.get(&pk.to_string()) == Some(k));
                     if occurs {
                         let lh = TapLeafHash::from_byte_array(crate::vm::tapleaf_hash(0xc0, leaf.miniscript().encode().as_bytes()));
+                        if !allow(*k, Slot::TapLeaf(lh)) {
+                            continue;
+                        }
                         if let Ok(d) = ref_digest(tx, &prevouts, idx, &SpendCtx::TapLeaf { leaf_hash: lh }, 0) {
                             let sig = secp.sign_schnorr_with_aux_rand(&Message::from_digest(d), &kp, &aux.bytes32());
                             sat.tap_script.insert((*k, lh), bitcoin::taproot::Signature { signature: sig, sighash_type: TapSighashType::Default });
@@ -620,6 +642,9 @@ pub fn god_sat<'a>(env: &'a crate::sim::Env, tx: &Transaction, idx: usize, keys:
         d => {
             let script = d.explicit_script().ok();
             for k in keys {
+                if !allow(*k, Slot::Ecdsa) {
+                    continue;
+                }
                 let key = &env.uni.keys[*k];
                 let pkb = key.public.to_bytes();
                 if let Some(ctx) = ecdsa_ctx_for(ic.kind, &ic.spk, script.as_ref(), script.as_ref(), &pkb) {
